@@ -8,7 +8,7 @@ Decided here (necessary structural conditions; see DESIGN.md for what is not dec
   R20.4  recursion: parser recursion passes a depth cap that raises ParserError; other recursions descend structurally
   R20.5  exception escape: only LexerError/ParserError leave the reader entry points, nothing leaves a tool execute()
   R20.5c values taken from a document's META are type-guarded before a type-specific operation
-  R20.6  no input-proportional work per token inside the scanner's main loop
+  R20.6  no input-proportional work per token inside the scanner's main loop; R20.6b the same for the Parser's token list
   R20.7  no token regex iterates ambiguously (exponential backtracking)
   R20.8  every single-character index into the scanned text is bounds-guarded
 """
@@ -21,6 +21,7 @@ import re._parser as sp  # type: ignore[import-not-found]
 from .. import rx
 from ..cfg import CFG, branch_conditions
 from ..excflow import ExcFlow, Origin
+from ..fsmodel import is_name
 from ..pathstate import Explorer, assigned as _assigned, conjuncts as _conjuncts, expression_context_facts, names_of_text as _names_of_text
 from ..progress import ParserModel, counter_loop_ok
 from ..report import Run
@@ -1444,6 +1445,51 @@ def check_complexity(run: Run) -> None:
     n_stmts = sum(1 for n in ast.walk(loop) if isinstance(n, ast.stmt))
     run.instance("R20.6", lx.loc(loop), f"main loop: {n_stmts} statements scanned, {n_checked} candidate constructs examined")
     run.extra["scanner_grown_collections"] = sorted(grown)
+    _parser_token_list_work(run)
+
+
+def _parser_token_list_work(run: Run) -> None:
+    """the Parser is called once per construct; any whole-list operation on its token list is input-proportional work per construct"""
+    run.rule("R20.6b", "no Parser method outside __init__ does work proportional to the whole token list: `self.tokens` is only indexed, measured with len() or sliced between two computed bounds - no open-ended slice, no iteration / comprehension / membership test over it, no .index/.count/.copy/list()/sorted()/reversed() of it, no insert/pop(0)/del at the front", 6)
+    pm = run.project.mod("core.parser")
+    n = 0
+    for q, fi in pm.functions.items():
+        if not q.startswith("Parser.") or q == "Parser.__init__":
+            continue
+        parents: dict[int, ast.AST] = {}
+        for a in ast.walk(fi.node):
+            for c in ast.iter_child_nodes(a):
+                parents[id(c)] = a
+        for a in walk_no_nested(fi.node):
+            if not (isinstance(a, ast.Attribute) and a.attr == "tokens" and is_name(a.value, "self")):
+                continue
+            n += 1
+            par = parents.get(id(a))
+            bad = None
+            if isinstance(par, ast.Subscript) and par.value is a:
+                if isinstance(par.slice, ast.Slice) and (par.slice.lower is None or par.slice.upper is None):
+                    bad = f"open-ended slice `{ast.unparse(par)}` copies the rest of the token list"
+                gp = parents.get(id(par))
+                if isinstance(gp, ast.Delete):
+                    bad = f"`{ast.unparse(gp)}` shifts the token list"
+            elif isinstance(par, ast.Call) and par.func is not a and a in par.args:
+                fn = ast.unparse(par.func)
+                if fn != "len":
+                    bad = f"`{fn}(self.tokens)` walks the whole token list"
+            elif isinstance(par, ast.Attribute) and par.value is a:
+                if par.attr in ("index", "count", "copy", "insert", "remove", "sort", "reverse", "extend") or (par.attr == "pop" and isinstance(parents.get(id(par)), ast.Call) and parents[id(par)].args):  # type: ignore[union-attr]
+                    bad = f"`self.tokens.{par.attr}(...)` is linear in the token list"
+            elif isinstance(par, (ast.For, ast.comprehension)) and par.iter is a:
+                bad = "iteration over the whole token list"
+            elif isinstance(par, ast.Compare) and a in par.comparators and any(isinstance(o, (ast.In, ast.NotIn)) for o in par.ops):
+                bad = "membership test on the whole token list"
+            elif isinstance(par, (ast.Assign, ast.AugAssign, ast.Return, ast.Starred, ast.keyword)) or (isinstance(par, ast.Call) and a in par.args):
+                bad = None if isinstance(par, ast.Assign) and par.value is a and all(isinstance(t, ast.Name) for t in par.targets) else bad
+            run.instance("R20.6b", pm.loc(a), f"{q}: `{norm(par) if par is not None else 'self.tokens'}`"[:160], ok=bad is None)
+            if bad:
+                run.violation("R20.6b", pm, q, par if par is not None else a, f"{q}: {bad}; the method runs once per construct, so reading grows quadratically with the input")
+    if n == 0:
+        raise AnalysisError("Parser no longer keeps its tokens in self.tokens: per-construct work on the token list is not decided")
 
 
 def _ends_in_raise(cfg: CFG, head: int, st: ast.AST | None) -> bool:
